@@ -366,7 +366,7 @@ def run(ck):
     ]
     ck.rule = ("unit: random operation sequences (enqueue sizes 8..249 equal / two sizes / mixed; next; confirm oldest outstanding; reset-to-waiting; queries; release) for N in {1,2,3,4,8}; "
                "trace: enqueue / activate / acknowledge prefixes / connection loss (peer close, write error, STOPDT+close) / reconnect, k in {1,2,3,12}; non-trivial = distinct script")
-    ck.explanation = "PARTIAL: event-log theorems proved in Coq for every history; the byte-offset ring of MessageQueue is validated by differential execution against the C functions and by an abstract-log oracle on every run, its ring invariant is not proved."
+    ck.explanation = "PARTIAL: (1) event-log theorems for every history (acknowledged never resent, loss re-arms, ids unique); (2) the byte-offset MessageQueue ring (literal transcription, run against the C functions on every run) is proved for every ring size and every history: no stale header read, entries inside the arena, enqueue displaces only a prefix of the oldest entries, getNextWaiting = oldest waiting entry, confirmation safe for every (pointer, id) pair ever handed out. NOT proved: a Coq refinement connecting layer 1 (entries by id) with layer 2 (entries by offset) and the capacity clause (N equal-size entries retained); both are evaluated by the oracle on the real server."
     ck.coq("C06")
     h = harness()
     try:
